@@ -228,14 +228,19 @@ impl IotaDID {
   fn normalize(mut did: CoreDID) -> CoreDID {
     let method_id = did.method_id();
     let (network, tag) = Self::denormalized_components(method_id);
-    if tag.len() == method_id.len() || network != Self::DEFAULT_NETWORK {
-      did
+    // Hex digits are case-insensitive: the normal form of the tag is lower case.
+    let tag: String = tag.to_ascii_lowercase();
+    let normalized: String = if network == Self::DEFAULT_NETWORK {
+      tag
     } else {
+      format!("{network}:{tag}")
+    };
+    if normalized != method_id {
       did
-        .set_method_id(tag.to_owned())
+        .set_method_id(normalized)
         .expect("normalizing a valid CoreDID should be Ok");
-      did
     }
+    did
   }
 
   /// foo:bar -> (foo,bar)
